@@ -335,6 +335,7 @@ def run_case(rng, ctx):
     width = max([len(d.dom)] + [len(l) + len(b.cod) + len(r) for l, b, r in d.layers])
     interp = meval.Interp("nf{}".format(ctx.index), dims=(2, 3) if width <= 5 else (2,))
     layers, arity = im.model_of(d)
+    key_before = repr(struct.key(d))
     members, closed = im.equivalence_class(layers, arity, CLASS_CAP[ctx.tier])
     members = sorted(members)
     if not closed:
@@ -399,6 +400,9 @@ def run_case(rng, ctx):
                        normal_form_of_member_offsets=lambda: value.offsets,
                        class_size=len(members), class_closed=closed)
     foliation_case(ctx, d, connected, interp, members if closed else None)
+    ctx.expect("operands-unchanged", im.model_of(d)[0] == layers
+               and repr(struct.key(d)) == key_before,
+               diagram=lambda: safe_repr(d), offsets=lambda: d.offsets)
     if connected and len(members) >= 4:
         ctx.mark(repr(members)[:4000] + safe_repr(d, 500))
     if ctx.index < 20:
